@@ -23,6 +23,7 @@ Definition nt_frame (f : frame) : Prop :=
   match f with
   | FTask _ _ _ (TCatchCas _) _ | FTask _ _ _ TCancel _ | FTask _ _ _ TRGuard _ | FPool _ (PCatchCas _) | FPool _ PCancel => False
   | FMain (MWait _ WDDeq _) | FMain (MWait _ WDDec _) | FMain (MWait _ WDec2 _) => False
+  | FGen (GCatchCas _) | FGen GCancel | FPool _ PSkipGen | FPool _ PEnd => False
   | _ => True
   end.
 Definition nt_thread (th : thread) : Prop := unw th = None /\ Forall nt_frame (stack th).
@@ -369,7 +370,7 @@ Proof.
   assert (S1 : 0 <= shw (m_genc c) (sh s)).
   { unfold shw. rewrite gatesw_zero by reflexivity. unfold bagw, logw.
     assert (0 <= sumf (fun e => mb (m_genc c) (snd e)) (bag (sh s))) by (apply sumf_nonneg; intros [p []]; cbn; lia).
-    assert (0 <= sumf (me (m_genc c)) (log (sh s))) by (apply sumf_nonneg; intros; apply bz_nonneg). lia. }
+    assert (0 <= sumf (me (m_genc c)) (log (sh s))) by (apply sumf_nonneg; intros; cbn; lia). lia. }
   assert (thsw m_gl (threads s) <= thsw (m_genc c) (threads s)); [|lia].
   unfold thsw. apply sumf_le. intros th Hth. unfold stackw. apply sumf_le. intros f Hf.
   rewrite Forall_forall in WT. specialize (WT th Hth). unfold wf_thread in WT. rewrite Forall_forall in WT. specialize (WT f Hf).
